@@ -187,6 +187,10 @@ class Engine(NumericMixin, EvalMixin, ExecMixin, CallMixin, BuiltinMixin):
             st.env[n] = fresh_value(st, spec.params[n], n)
         for gname, gt in spec.ghost_params.items():
             st.env[gname] = fresh_value(st, gt, gname)
+        if spec.region:
+            for lname, lt in spec.locals.items():
+                if lname not in st.env:
+                    st.env[lname] = fresh_value(st, lt, lname)
         st.env['np_errstate'] = SV(STR, z3.String('np_errstate0'))      # numpy's process-global error configuration (ghost)
         return st
 
@@ -225,8 +229,8 @@ class Engine(NumericMixin, EvalMixin, ExecMixin, CallMixin, BuiltinMixin):
         res = Result(qual)
         self.current_fn = qual
         self.verifying = qual
-        fi = self.index.fns.get(qual)
         spec = REG.fns.get(qual)
+        fi = self.index.fns.get(spec.of if spec is not None and spec.of else qual)
         if fi is None or spec is None:
             res.status = 'contract-out-of-date'
             res.reason = 'function %s not found in the source' % qual if fi is None else 'no contract'
@@ -288,8 +292,21 @@ class Engine(NumericMixin, EvalMixin, ExecMixin, CallMixin, BuiltinMixin):
         self.fn_spec_stack.append(spec)
         self.loop_ordinals_stack.append(loop_ordinals(fi.node))
         self.hint_dict_type = None
+        body = fi.node.body
+        if spec.region:
+            # mechanical extraction of a statement range of the real function (what is dropped: every other
+            # statement of the function; the region's `requires` states what they are relied on to establish)
+            srcs = [ast.unparse(x) for x in body]
+            a = [i for i, x in enumerate(srcs) if x.startswith(spec.region[0])]
+            b = [i for i, x in enumerate(srcs) if x.startswith(spec.region[1])]
+            if len(a) != 1 or len(b) != 1 or a[0] > b[0]:
+                raise SpecError('region %r..%r of %s cannot be located' % (spec.region[0], spec.region[1], fi.qual))
+            body = body[a[0]:b[0] + 1]
+            for lname, lt in spec.locals.items():
+                if lname not in st.env:
+                    st.env[lname] = fresh_value(st, lt, lname)
         try:
-            outs = list(self.ex_block(fi.node.body, st))
+            outs = list(self.ex_block(body, st))
         finally:
             self.fn_spec_stack.pop()
             self.loop_ordinals_stack.pop()
